@@ -1568,7 +1568,7 @@ def gen_e2e(st, tier, flavour):
             sp["filterable"] = True
             if rk.random() < 0.8:
                 sp["filters"] = rk.sample(E2E_FILTER_WORDS, rk.randint(1, 3))
-                if flavour == "C10" and rk.random() < 0.6:
+                if flavour == "C10" and rk.random() < 0.8:
                     sp["filter_budget"] = rk.choice([1, 1, 2, 3])      # add_filter(..., max_match=n): budgets that DO run out
                     if len(sp["filters"]) >= 2:
                         # lines matching two filters: which budget such a line is charged to decides what is kept
